@@ -296,18 +296,18 @@ M('c18-http-error-handler-close-only-if-ready', 'C18', 'R5', APP,
 
 # ------------------------------------------------------------------ R6 (the "pump ended" conclusion of receive())
 M('c18-receive-end-on-task-done', 'C18', 'R6', WS,
-  "            if not pop_message_waiter.done():", "            if self._pump_task.done():")
+  "            if not pop_message_waiter.done():", "            if self._pump_task.done():", also=('C17',))
 M('c18-receive-end-on-task-done-or-unnotified', 'C18', 'R6', WS,
-  "            if not pop_message_waiter.done():", "            if self._pump_task.done() or not pop_message_waiter.done():")
+  "            if not pop_message_waiter.done():", "            if self._pump_task.done() or not pop_message_waiter.done():", also=('C17',))
 M('c18-receive-end-on-disconnect-flag', 'C18', 'R6', WS,
-  "            if not pop_message_waiter.done():", "            if self.client_disconnected:")
+  "            if not pop_message_waiter.done():", "            if self.client_disconnected:", also=('C17',))
 M('c18-receive-disconnect-shortcut-on-entry', 'C18', 'R6', WS,
   """        while not self._messages:
             # ----""", """        if self.client_disconnected:
             return {'type': EventType.WS_DISCONNECT, 'code': self.client_disconnected_code}
 
         while not self._messages:
-            # ----""")
+            # ----""", also=('C17',))
 
 M('c18-require-accepted-checks-disconnect-flag', 'C18', 'R7', 'falcon/asgi/ws.py',
   """        elif self._state == _WebSocketState.CLOSED:
@@ -319,3 +319,66 @@ M('c18-require-accepted-checks-disconnect-flag', 'C18', 'R7', 'falcon/asgi/ws.py
             raise errors.WebSocketDisconnected(self._buffered_receiver.client_disconnected_code)
 
     def _translate_webserver_error""", also=('C17',))
+
+# ------------------------------------------------------------------ R7 through same-class helpers (wave 5, s5-c18-3)
+_SEND_HEAD = """        if self._buffered_receiver.client_disconnected:
+            self._state = _WebSocketState.CLOSED
+            self._close_code = self._buffered_receiver.client_disconnected_code
+
+        if self._state == _WebSocketState.CLOSED:
+            raise errors.WebSocketDisconnected(self._close_code)
+
+        try:
+            await self._asgi_send(msg)"""
+_SEND_HEAD_HELPER = """        self._check_disconnected()
+
+        try:
+            await self._asgi_send(msg)"""
+_HELPER = """    def _check_disconnected(self) -> None:
+        if self._buffered_receiver.client_disconnected:
+            self._state = _WebSocketState.CLOSED
+            self._close_code = self._buffered_receiver.client_disconnected_code
+
+        if self._state == _WebSocketState.CLOSED:
+            raise errors.WebSocketDisconnected(self._close_code)
+
+    def _translate_webserver_error(self"""
+# the seed: the sender's "fold the flag, raise if closed" block becomes a helper that _require_accepted (every receive_*) calls too
+M2('c18-shared-disconnect-helper-on-receive-path', 'C18', 'R7', [
+    {'file': WS, 'old': _SEND_HEAD, 'new': _SEND_HEAD_HELPER},
+    {'file': WS, 'old': """        elif self._state == _WebSocketState.CLOSED:
+            raise errors.WebSocketDisconnected(self._close_code)
+
+    def _translate_webserver_error(self""", 'new': """
+        self._check_disconnected()
+
+""" + _HELPER},
+])
+# the helper is called by one receive method directly
+M2('c18-receive-text-calls-sender-helper', 'C18', 'R7', [
+    {'file': WS, 'old': _SEND_HEAD, 'new': _SEND_HEAD_HELPER},
+    {'file': WS, 'old': "    def _translate_webserver_error(self", 'new': _HELPER},
+    {'file': WS, 'old': """        self._require_accepted()
+
+        event = await self._receive()
+
+        # PERF(kgriffs): When we normally expect the key to be
+        #   present, this pattern is faster than get()
+""", 'new': """        self._require_accepted()
+        self._check_disconnected()
+
+        event = await self._receive()
+
+        # PERF(kgriffs): When we normally expect the key to be
+        #   present, this pattern is faster than get()
+"""},
+])
+# the flag reaches the receive path through the `closed` property
+M('c18-require-accepted-tests-closed-property', 'C18', 'R7', WS,
+  """        elif self._state == _WebSocketState.CLOSED:
+            raise errors.WebSocketDisconnected(self._close_code)
+
+    def _translate_webserver_error""", """        elif self.closed:
+            raise errors.WebSocketDisconnected(self._close_code)
+
+    def _translate_webserver_error""")
